@@ -16,6 +16,8 @@ fn all_distractors(n_terms: usize) -> Vec<Distractor> {
         Distractor::NotRowOmimOnly,
         Distractor::NotRowOrphaExisting,
         Distractor::NotRowOrphaOnly,
+        Distractor::NotRowTwinsFirst,
+        Distractor::NotRowTwinsLast,
         Distractor::HpoaComments,
         Distractor::HpoaColumnHeader,
         Distractor::HpoaCommentMiddle,
